@@ -45,6 +45,8 @@ def main():
             ctx.notes.append('model did not build; searching with the last good executable model')
     else:
         common.proof_step(ctx, a.pid + '.v')
+        if a.tier == 'thorough':
+            common.coqchk_step(ctx, a.pid)
     bad = common.forbidden_scan()
     if bad:
         ctx.broke('forbidden constructs in the development: ' + '; '.join(bad[:5]))
